@@ -497,6 +497,11 @@ def r5_frozen_after_hash(ctx):
                "hashed settings are not edited by the fitter")
 
 
+def r6_upper_bound_agreement(ctx):
+    from ..fitclauses import clause_upper_bound_agreement
+    clause_upper_bound_agreement(ctx, "hash")
+
+
 RULES = [
     ("C12-R1", "hash covers axes, preprocessing and every settings key; "
      "only the documented don't-cares are conditional", r1_coverage),
@@ -507,4 +512,6 @@ RULES = [
     ("C12-R4", "sequence encoding is self-delimiting", r4_self_delimiting),
     ("C12-R5", "hashed settings are frozen after hashing",
      r5_frozen_after_hash),
+    ("C12-R6", "the partial hash of range_x keys on the bound the fit uses",
+     r6_upper_bound_agreement),
 ]
